@@ -3,6 +3,10 @@
     [gstate] has one field per shared mutable cell that some API step touches:
       - [prec]  : the precision of the module-level [decimal.Context]
                   ([fastavro/_logical_readers_py.py: decimal_context]);
+      - [inexact], [rounded] : the sticky signal flags Inexact / Rounded of that same
+                  Context object (set by [create_decimal] / [scaleb] whenever they
+                  round; nothing in the library, and no [decimal] operation, reads
+                  them back: write-only cells);
       - [other] : the abstract contents of every other cell of the regenerated
                   inventory (Srcfacts.mutable_globals / mutable_defaults: the
                   READERS / WRITERS / SKIPS / VALIDATORS / LOGICAL_* / BLOCK_*
@@ -57,23 +61,37 @@ Definition round_to (p : Z) (d : dec) : dec :=
     if c =? 10 ^ p then mkD (dsign d) (10 ^ (p - 1)) (dexp d + k + 1)
     else mkD (dsign d) c (dexp d + k).
 
+(** the signals that rounding raises on the context: (Inexact, Rounded).
+    Rounded: digits were discarded; Inexact: some discarded digit was non-zero. *)
+Definition round_flags (p : Z) (d : dec) : bool * bool :=
+  let nd := ndigits (dcoef d) in
+  if nd <=? p then (false, false)
+  else (negb (dcoef d mod 10 ^ (nd - p) =? 0), true).
+
 (** [ctx.create_decimal(u)] for a Python int [u] under precision [p] *)
 Definition create_decimal (p u : Z) : dec := round_to p (mkD (u <? 0) (Z.abs u) 0).
+Definition create_flags (p u : Z) : bool * bool := round_flags p (mkD (u <? 0) (Z.abs u) 0).
 
 (** [d.scaleb(-scale, ctx)] under precision [p] (exponent limits of the default
     context, +-999999, are out of reach of the scales an Avro schema can carry
     together with a readable datum and are not modelled) *)
 Definition scaleb (p : Z) (d : dec) (scale : Z) : dec :=
   round_to p (mkD (dsign d) (dcoef d) (dexp d - scale)).
+Definition scaleb_flags (p : Z) (d : dec) (scale : Z) : bool * bool :=
+  round_flags p (mkD (dsign d) (dcoef d) (dexp d - scale)).
 
 (** ---- shared state --------------------------------------------------------------- *)
 
-Record gstate := mkG { prec : Z; other : list Z }.
+Record gstate := mkG { prec : Z; inexact : bool; rounded : bool; other : list Z }.
 
-Definition set_prec (g : gstate) (p : Z) : gstate := mkG p (other g).
+Definition set_prec (g : gstate) (p : Z) : gstate := mkG p (inexact g) (rounded g) (other g).
 
-(** state of a fresh interpreter: [Context()] has precision 28 *)
-Definition g0 : gstate := mkG 28 [].
+(** signal flags are sticky: raising ORs them in *)
+Definition add_flags (g : gstate) (f : bool * bool) : gstate :=
+  mkG (prec g) (inexact g || fst f) (rounded g || snd f) (other g).
+
+(** state of a fresh interpreter: [Context()] has precision 28 and no flag set *)
+Definition g0 : gstate := mkG 28 false false [].
 
 (** ---- API calls ------------------------------------------------------------------ *)
 
@@ -121,8 +139,10 @@ Fixpoint read_decs (v : variant) (g : gstate) (ds : list decfield) (acc : list d
         | Current =>
             let g1 := set_prec g (df_prec d) in                      (* decimal_context.prec = precision *)
             let x := create_decimal (prec g1) (df_unscaled d) in     (* decimal_context.create_decimal(..) *)
-            let y := scaleb (prec g1) x (df_scale d) in              (* .scaleb(-scale, decimal_context) *)
-            read_decs v g1 ds (y :: acc)
+            let g2 := add_flags g1 (create_flags (prec g1) (df_unscaled d)) in
+            let y := scaleb (prec g2) x (df_scale d) in              (* .scaleb(-scale, decimal_context) *)
+            let g3 := add_flags g2 (scaleb_flags (prec g2) x (df_scale d)) in
+            read_decs v g3 ds (y :: acc)
         | Fixed =>
             let p := df_prec d in                                    (* ctx = Context(prec=precision) *)
             read_decs v g ds (scaleb p (create_decimal p (df_unscaled d)) (df_scale d) :: acc)
@@ -158,11 +178,15 @@ Fixpoint sep_list (f : dec -> string) (l : list dec) : string :=
 Definition show_result (r : result) : string :=
   match r with RRaised => "raised" | ROk vs => "ok:" ++ sep_list show_dec vs end.
 
-(** one line per call of a history: "<prec after the call>|<result>", joined by "/" *)
+Definition show_bool (b : bool) : string := if b then "1" else "0".
+Definition show_gstate (g : gstate) : string :=
+  show_Z (prec g) ++ "," ++ show_bool (inexact g) ++ "," ++ show_bool (rounded g).
+
+(** one line per call of a history: "<prec,inexact,rounded after the call>|<result>", joined by "/" *)
 Fixpoint show_trace (v : variant) (g : gstate) (h : list api_call) : string :=
   match h with
   | [] => ""
   | c :: h =>
       let '(g', r) := api_step_v v g c in
-      show_Z (prec g') ++ "|" ++ show_result r ++ "/" ++ show_trace v g' h
+      show_gstate g' ++ "|" ++ show_result r ++ "/" ++ show_trace v g' h
   end.
